@@ -23,5 +23,7 @@ check)
   (cd /verif && ./check $id $tier 2>&1 | grep -E "^clause|^key|^detail|^VIOLATION|^$id |HARNESS|KNOWN" | cut -c1-400)
   git -C /repo checkout -- .
   rm -rf /verif/replays/$id/found
+  # the evidence file now describes a run against the changed tree: put the committed one back
+  git -C /verif checkout -q -- evidence/$id.json 2>/dev/null
   ;;
 esac
